@@ -36,6 +36,41 @@ def is_setlike(M, fn, e, setvars):
     return False
 
 
+def _comp_result_is_order_free(fn, pm, gen):
+    """the comprehension iterating a set builds something whose element order nobody can observe: a set, an argument of an order-free reduction, or a dict
+    (dict comprehension / dict(<generator of pairs>)) bound to a local name that is only ever looked up by key"""
+    comp = pm.get(gen)
+    if isinstance(comp, ast.SetComp):
+        return True
+    holder = comp
+    if isinstance(comp, ast.GeneratorExp):
+        call = pm.get(comp)
+        if not (isinstance(call, ast.Call) and comp in call.args and isinstance(call.func, ast.Name)):
+            return False
+        if call.func.id in ORDER_FREE:
+            return True
+        if call.func.id != 'dict':
+            return False
+        holder = call
+    elif not isinstance(comp, ast.DictComp):
+        return False
+    asg = pm.get(holder)
+    if not (isinstance(asg, ast.Assign) and len(asg.targets) == 1 and isinstance(asg.targets[0], ast.Name)):
+        return False
+    name = asg.targets[0].id
+    for n in ast.walk(fn.node):
+        if isinstance(n, ast.Name) and n.id == name and n is not asg.targets[0]:
+            p = pm.get(n)
+            if isinstance(p, ast.Subscript) and p.value is n and isinstance(p.ctx, ast.Load):
+                continue
+            if isinstance(p, ast.Compare) and n in p.comparators and all(isinstance(o, (ast.In, ast.NotIn)) for o in p.ops):
+                continue
+            if isinstance(p, ast.Attribute) and p.attr == 'get' and isinstance(pm.get(p), ast.Call):
+                continue
+            return False
+    return True
+
+
 def check(ctx):
     M = ctx.M
     ctx.sub(set_order)
@@ -80,6 +115,8 @@ def set_order(ctx):
                         continue
                 use = 'passed to %s(...)' % name
             elif isinstance(par, (ast.For, ast.comprehension)) and par.iter is n:
+                if isinstance(par, ast.comprehension) and _comp_result_is_order_free(fn, pm, par):
+                    continue
                 use = 'iterated'
             elif isinstance(par, ast.Compare):
                 continue
@@ -132,6 +169,8 @@ def set_order(ctx):
                 for b in ast.walk(node):
                     if isinstance(b, ast.Call) and isinstance(b.func, ast.Attribute) and b.func.attr in ('append', 'extend', 'insert', 'add', 'put'):
                         recv = b.func.value
+                        if len(b.args) == 1 and isinstance(b.args[0], ast.Lambda) and _deferred_keyed_action(b.args[0], lv):
+                            continue        # a deferred per-asset action (applied later, to that asset's own state): the order of the actions is not an output
                         # receiver must be per-asset state: a call carrying the loop variable as first argument is the keyed form
                         if not any(isinstance(x, ast.Name) and x.id == lv for a in b.args for x in ast.walk(a)):
                             ok, why = False, ast.unparse(b)[:80]
@@ -143,6 +182,13 @@ def set_order(ctx):
                         ok, why = False, 'early exit depends on the order'
                 ctx.require(ok, 'C18.set', 'loop over a signal\'s asset list in %s only touches per-asset state' % fn.qn, fn.site(node), why, key='C18.set|assets-loop|%s' % fn.qn)
     ctx.floor('C18.set', 'loops over Signal.assets examined', n, 1)
+
+
+def _deferred_keyed_action(lam, lv):
+    """lambda asset=<lv>, ...: obj.append(asset, ...) - the loop variable is frozen as a default and is the key argument of the one call the lambda makes"""
+    frozen = {a.arg for a, d in zip(lam.args.args[len(lam.args.args) - len(lam.args.defaults):], lam.args.defaults) if isinstance(d, ast.Name) and d.id == lv}
+    body = lam.body
+    return isinstance(body, ast.Call) and bool(body.args) and isinstance(body.args[0], ast.Name) and body.args[0].id in frozen and len(body.args) >= 2
 
 
 def _keyed_by(call, lv):
@@ -181,11 +227,19 @@ def fs_order(ctx):
                 chain_.append(p.attr if isinstance(p, ast.Attribute) else '()')
                 p = pm.get(p)
             if isinstance(p, (ast.For, ast.comprehension)) and ('items' in chain_ or 'values' in chain_ or 'keys' in chain_ or not chain_):
-                ok = fn.qn == 'CSVDailyBarDataSource._convert_bars_into_bid_ask_dfs'
-                if ok and isinstance(p, ast.For):
+                # order-free uses: a dict/set comprehension, an order-free reduction over a generator, or a statement loop that only stores under keys
+                ok = False
+                if isinstance(p, ast.comprehension):
+                    comp = pm.get(p)
+                    ok = isinstance(comp, (ast.DictComp, ast.SetComp)) or (
+                        isinstance(comp, ast.GeneratorExp) and isinstance(pm.get(comp), ast.Call) and isinstance(pm[comp].func, ast.Name) and pm[comp].func.id in (ORDER_FREE | {'dict'}))
+                else:
+                    ok = True
                     for b in p.body:
                         for s in ast.walk(b):
-                            if isinstance(s, ast.Call) and isinstance(s.func, ast.Attribute) and s.func.attr in ('append', 'extend'):
+                            if isinstance(s, ast.Call) and isinstance(s.func, ast.Attribute) and s.func.attr in ('append', 'extend', 'insert', 'appendleft'):
+                                ok = False
+                            if isinstance(s, (ast.Break, ast.Return, ast.Yield)):
                                 ok = False
                 ctx.require(ok, 'C18.fs', 'the per-asset frame dicts are iterated only to build another dict keyed by asset (%s)' % fn.qn, fn.site(node),
                             key='C18.fs|iterate|%s' % fn.qn)
@@ -424,10 +478,10 @@ def _ctor_only(M, m, depth=0):
     return True
 
 
-def _field_is_read(M, fld):
+def _field_is_read(M, fld, skip=None):
     """some code loads <x>.<fld> for its value: not merely as the container being stored into (x.f[k] = v) or grown by a statement-level mutator call"""
     for fn in M.all_funcs():
-        if fn.parent is not None:
+        if fn.parent is not None or (skip is not None and fn.qn == skip.qn):
             continue
         pm = None
         for n in ast.walk(fn.node):
@@ -665,16 +719,25 @@ def memoisation(ctx):
             continue
         ctx.holds('C18.memo', 'memoised function %s is tabled and discharged' % f.qn, f.site())
         ps = summarise(ctx, f, policy=default_policy)
+        from ..lib import memo_tables, all_terms_of
+        mts = memo_tables(ctx, f, ps)
+        sound = {k for k, v in mts.items() if v[0] == 'sound'}
+        cursors = {k for k, v in mts.items() if v[0] == 'other' and 'cursor' in v[1]}
+        field_of = lambda loc: (loc[1][2] if loc[0] == 'sub' and loc[1][0] == 'attr' and loc[1][1] == V('self') else None)
         for p in ps:
-            ws = heap_writes(p)
-            ctx.require(not ws, 'C18.memo', '%s has no side effect' % f.qn, ws[0].site if ws else None, key='C18.memo|pure|%s' % f.qn)
+            ws = [w for w in heap_writes(p) if field_of(w.loc) not in sound]
+            if ws and all(any(s_[0] == 'attr' and s_[1] == V('self') and s_[2] in cursors for s_ in T.subterms(w.loc)) for w in ws):
+                ctx.undecided('C18.memo', '%s has no side effect' % f.qn, ws[0].site, 'advances the per-key cursors in self.%s' % sorted(cursors))
+            else:
+                ctx.require(not ws, 'C18.memo', '%s has no side effect' % f.qn, ws[0].site if ws else None, key='C18.memo|pure|%s' % f.qn)
             reads = set()
-            from ..lib import all_terms_of
             for t in all_terms_of(p):
                 for s in T.subterms(t):
                     if s[0] == 'attr' and s[1] == V('self'):
                         reads.add(s[2])
-            ctx.require(reads <= {'asset_bid_ask_frames'}, 'C18.memo', '%s reads only its arguments and the immutable frames' % f.qn, f.site(), sorted(reads),
+            # state fixed at construction may be read freely; a sound memo table answers what a fresh computation would; cursors are left open above
+            mutable = sorted(r for r in reads - sound - cursors if M.field_written_outside_init(f.cls, r))
+            ctx.require(not mutable, 'C18.memo', '%s reads only its arguments and state fixed at construction' % f.qn, f.site(), mutable,
                         key='C18.memo|reads|%s' % f.qn)
         c = f.cls
         if c is not None:
@@ -697,6 +760,8 @@ def memoisation(ctx):
         for name, m in sorted(c.methods.items()):
             if name == '__init__' or _ctor_only(M, m):
                 continue
+            if any(isinstance(d_, ast.Attribute) and d_.attr in ('setter', 'deleter') for d_ in m.node.decorator_list):
+                continue            # a property setter runs when the caller assigns the attribute: configuration by the owner, like any public field
             found = {}          # field -> (node, how)
             for n in ast.walk(m.node):
                 tg = []
@@ -727,6 +792,29 @@ def memoisation(ctx):
                 if not _field_is_read(M, fld):
                     ctx.holds('C18.memo', '%s records into self.%s, which nothing reads back' % (m.qn, fld), m.site(n))
                     continue
+                if not _field_is_read(M, fld, skip=m):
+                    # only this method reads the field: does any path read the value an EARLIER call left there (a read before the path's own write)?
+                    try:
+                        mps = summarise(ctx, m, policy=default_policy)
+                        from ..lib import all_terms_of
+                        def read_terms(p_):
+                            for e_ in p_.flat_events():
+                                if e_.kind == 'write' and e_.value is not None:
+                                    yield e_.value
+                                elif e_.kind == 'call':
+                                    yield from (a_ for a_ in e_.args.values() if isinstance(a_, tuple))
+                                    if e_.d.get('recv') is not None:
+                                        yield e_.d['recv']
+                            for c_, _, _ in p_.conds:
+                                yield c_
+                            if p_.value is not None:
+                                yield p_.value
+                        pre = any(s_ == A('self', fld) for p_ in mps for t_ in read_terms(p_) for s_ in T.subterms(t_))
+                    except Undecided:
+                        pre = True
+                    if not pre:
+                        ctx.holds('C18.memo', '%s re-initialises self.%s before using it in every call (nothing carries over, nothing else reads it)' % (m.qn, fld), m.site(n))
+                        continue
                 if memos is None:
                     try:
                         memos = memo_tables(ctx, m, summarise(ctx, m, policy=default_policy))
@@ -746,6 +834,10 @@ def memoisation(ctx):
                     ctx.violation('C18.memo', 'stateless components keep no state between calls (%s)' % m.qn, m.site(n),
                                   'self.%s memoises under the key %s, which leaves out %s: a later query is answered with an earlier one\'s value' % (fld, fmt(mt[1])[:60], ', '.join(mt[2])),
                                   key='C18.memo|state|%s|%s' % (m.qn, fld))
+                    continue
+                if mt is not None and mt[0] == 'other' and 'cursor' in mt[1]:
+                    # a table of per-key cursors advanced in place: whether answers still equal a fresh lookup depends on how the code rewinds - not decided here
+                    ctx.undecided('C18.memo', 'stateless components keep no state between calls (%s)' % m.qn, m.site(n), 'self.%s: %s' % (fld, mt[1]))
                     continue
                 ctx.violation('C18.memo', 'stateless components keep no state between calls (%s)' % m.qn, m.site(n),
                               'self.%s is %s outside the constructor and read back: results depend on the history of earlier queries' % (fld, how),
